@@ -10,6 +10,7 @@ use serde_json::{json, Value};
 
 mod gen;
 mod leaf;
+mod refimpl;
 mod preds;
 mod preds2;
 
@@ -29,6 +30,19 @@ pub fn run(c: &Case) -> Result<EnergyPerformance, String> {
     let comps: Components = c.text.parse().map_err(|e| format!("{}", e))?;
     let w = factors(c.loc);
     let r = energy_performance(&comps, &w, c.k_exp, c.area, c.lm).map_err(|e| format!("{}", e));
+    if let Ok(ep) = &r { leaf::note_magnitude(ep); }
+    r
+}
+
+/// the same building as a component set built in code: the productions added by the automatic completion are taken out again, so
+/// the set is what a caller who fills `Components` through the public types (and does not normalize) would pass
+pub fn run_uncompleted(c: &Case) -> Result<EnergyPerformance, String> {
+    let mut comps: Components = c.text.parse().map_err(|e| format!("{}", e))?;
+    let before = comps.data.len();
+    comps.data.retain(|e| !matches!(e, cteepbd::types::Energy::Prod(p) if p.comment.starts_with("Equilibrado de consumo")));
+    if comps.data.len() == before { return Err("nothing was completed".into()); }
+    let w = factors(c.loc);
+    let r = std::panic::catch_unwind(move || energy_performance(&comps, &w, c.k_exp, c.area, c.lm)).map_err(|_| "panic".to_string())?.map_err(|e| format!("{}", e));
     if let Ok(ep) = &r { leaf::note_magnitude(ep); }
     r
 }
